@@ -315,8 +315,18 @@ def check_framing(ctx, R1, R2):
             X = T("encode", each, K("utf-8")) if is_str is True else each
             op, aa = destruct(a[0]) if a else (None, ())
             if op == "mod":
-                ok = len(aa) == 2 and aa[1] == T("tuple", T("len", X), X)
+                # byte views of the same chunk: len() of these counts bytes whatever the item size of the buffer
+                BV = (T("cast", T("memoryview", X), K("B")), T(T("memoryview", X) + ".cast", K("B")), T("bytes", X), T("tobytes", T("memoryview", X)), T(T("memoryview", X) + ".tobytes"))
+                ok = len(aa) == 2 and (aa[1] == T("tuple", T("len", X), X) or any(aa[1] == T("tuple", T("len", b_), b_) for b_ in BV)
+                                       or any(aa[1] == T("tuple", n_, X) for n_ in (T("nbytes", T("memoryview", X)), f"memoryview({X}).nbytes")))
                 what = "chunk frame is (len(x), x) of the very bytes sent"
+                if ok and is_str is False and aa[1] == T("tuple", T("len", X), X):
+                    # len(chunk) on the chunk itself counts ITEMS: exact only when the chunk is known to be bytes on this path
+                    is_bytes = x.v.isinst(each, "bytes")
+                    if _once(seen, ("r2-items", is_bytes)):
+                        ctx.ob(R2, fi.qual, "the size line counts bytes, not items: len() is taken of bytes or of a byte view of the chunk", is_bytes is True,
+                               "" if is_bytes is True else "a buffer chunk whose items are wider than one byte (array('I', ..), a cast memoryview) is framed with its item count: "
+                               "`chunked=True, body=array('I', [1, 2, 3])` sends the size line `3` followed by 12 bytes", witness=w, node=fi.node)
             else:
                 ok = a == [X]
                 what = "raw chunk is the chunk itself"
